@@ -1490,3 +1490,9 @@ def replay(ctx, data):
 if __name__ == "__main__":
     if len(sys.argv) >= 5 and sys.argv[1] == "--worker":
         worker_main(sys.argv[2:5])
+
+
+# --- W19: the decode theorem with the end-marker probe ---------------------------------------------------------------------------
+LEAN_TARGETS = LEAN_TARGETS + ["OdxVerif.Props.C17Marker"]
+THEOREMS = THEOREMS + [P + t for t in ["C17_marker_probe_hard", "C17_marker_catch_site", "C17_same_result_decode_marker_partial",
+                                       "C17_marker_text_counterexample", "C17_marker_subsumes", "sim_decode_all_marker", "hard_probe"]]
